@@ -14,6 +14,11 @@ CLI_NOTE = ("CLI correspondence: seeded command histories on real temporary proj
 POOL_NOTE = ("The theorems are about the labelled transition system GwfModel/Pool.lean (labels = the events observable on the real Scheduler). "
              "That asyncio realises only enabled transitions is VALIDATED by trace acceptance on the explored schedules (virtual clock, fake subprocess, instrumented semaphore/state table; fine-grained settling so cancels hit every await point), not proved. ")
 CHECKS = {
+ "C10": dict(
+   text="Theorems: the quoting theorem — for EVERY string wd, the script's cd line splits under POSIX quoting rules into exactly ['cd', wd] (cd_roundtrip, via a six-mode word-splitter model and shlex.quote; the unquoted form has a kernel-checked counter-example); option precedence: a later source that defines an option wins, a source that does not define it leaves the earlier value (update_defined / update_undefined over backend default < workflow default < template < per-target); resolved options contain only options the backend knows, none that resolved to None, and no option twice (resolved_options); the dropped names are exactly the unknown ones; in all three script generators the spec (plus at most a final newline) is the verbatim tail after cd and set -e (spec_is_tail_*); log directive paths are <project>/.gwf/logs/<target>.stdout|.stderr; clean_logs removes only files whose stem is not a current target name (cleanLogs_safe).",
+   note="bash's execution of the body is run, not modelled (oracle: bash -e on the bare spec); scheduler-side redirection of stdout/stderr to the log paths is not emulated, `gwf logs` is covered by the path theorem only. Project directories with whitespace are outside the generator (directive values are unquoted). SGE per-core memory: kernel-checked instances of the floor conversion. Script text from the real `gwf run` (fake sbatch/qsub/bsub record stdin) is compared with the model byte for byte.",
+   technique="Lean 4 proof (string state-machine round trip, association-list algebra) + byte-exact differential correspondence of generated scripts + real bash execution",
+   design="§6-C10"),
  "C08": dict(
    text="Theorems (kernel-checked over the code tables regenerated from the source on every run): every documented Slurm squeue code, sacct state name (incl. 'CANCELLED by <uid>'), LSF STAT value, SGE state-letter combination and local pool state is mapped into the category the property names — queued→submitted, executing→running, failure→failed, cancellation→cancelled, success/no record→file-based (slurm_short_classified … local_classified); the live queue always wins over the accounting database (squeue_wins); with accounting off the database content is irrelevant; completed and unknown are treated identically by the scheduling pass; the state of a target depends only on the job with its tracked id, never on other jobs (own_job_only); batching the accounting query partitions the ids in order with batches ≤ batch size, for any number of tracked jobs (batched_eq_unbatched).",
    note="The documented tables (Cat per code) are hand-curated from the manuals and are the oracle (trusted); suspended/error-queue codes are unconstrained (DESIGN §7-N3); codes missing from gwf's own tables raise KeyError and are not part of the documented set (N1). The correspondence runs the real `gwf status` for EVERY documented code of every backend, queue×accounting combinations, foreign jobs, stale accounting rows, 2100 tracked jobs (observing each sacct call's id count), transitions across invocations and a restarted local pool.",
